@@ -122,6 +122,19 @@ def corner_models():
                 mk([oh.make_node("RNN", ["x", "RW", "RR"], ["", "h1"], hidden_size=2), oh.make_node("RNN", ["h1", "RW", "RR"], ["y2"], hidden_size=2),
                     oh.make_node("RNN", ["h1", "RW", "RR", "", "", "h1"], ["", "h3"], hidden_size=2), oh.make_node("Add", ["y2", "h3"], ["y"])],
                    [vi("x", (3, 1, 2))], [oh.make_tensor_value_info("y", TP.FLOAT, (1, 1, 1, 2))], [rw, rr]), True))
+    # MANY outputs (12: two-digit positions) with pairwise different values and alternating element types; output names in an order that
+    # is neither alphabetical nor the order of the producing nodes
+    names12 = [f"res_{c}" for c in "kbjdafchieg"] + ["res_l"]
+    nodes12, outs12 = [], []
+    for k, nm in enumerate(names12):
+        nodes12.append(oh.make_node("Constant", [], [f"c{k}"], value=oh.make_tensor(f"c{k}", TP.FLOAT, (), [float(k + 1)])))
+        if k % 2:
+            nodes12 += [oh.make_node("Mul", ["x", f"c{k}"], [f"m{k}"]), oh.make_node("Cast", [f"m{k}"], [nm], to=TP.DOUBLE)]
+            outs12.append(vi(nm, (2,), TP.DOUBLE))
+        else:
+            nodes12.append(oh.make_node("Mul", ["x", f"c{k}"], [nm]))
+            outs12.append(vi(nm, (2,)))
+    out.append(("twelve-outputs", mk(nodes12, [vi("x")], outs12), True))
     for tag, m, _ in out:
         onnx.checker.check_model(m)
     return out
